@@ -1902,12 +1902,13 @@ void Router::markPolylineConnectorsNeedingReroutingForDeletedObstacle(
 
             }
 
+            // The position of the crossing point depends only on the 
+            // distances of the two endpoints from the line of this edge,
+            // whether or not they are on the same side of it.
+            b = fabs(b);
+            d = fabs(d);
+
             double x;
-            if ((b + d) == 0)
-            {
-                db_printf("WARNING: (b + d) == 0\n");
-                d = d * -1;
-            }
 
             if ((b == 0) && (d == 0))
             {
